@@ -140,7 +140,8 @@ Print Assumptions c17_rows_disk_prefix.
    scheduler is an oracle stream of answers (decision, STOP/PAUSE?) and an exhausted stream
    is an exception inside on_trial_result; the `finally` block runs print_best, the callbacks'
    on_tuning_end, save, stop_all, mark-stopped in THIS order and ANY of save / stop_all /
-   mark may raise.  Then, however the run ends (returns or raises, wherever):
+   mark may raise; carrying out a STOP / PAUSE may raise too (the row of that result has been
+   appended before).  Then, however the run ends (returns or raises, wherever):
    the table has exactly one row per result delivered to the scheduler in this run, in
    order, each reflecting its delivery; the file holds exactly these rows (an older table
    is overwritten, also by an empty one); the tuning status is the one of ALL results
@@ -192,8 +193,8 @@ Example c17_run_example :
   let r (x : Q) : dict := [(KUser 0, VNum (Fin x))] in
   let h t x := {| hi_trial := t; hi_result := r x; hi_status := 0; hi_config := [(0%nat, VNum (Fin 1))];
                   hi_clock := 1; hi_fire := false |} in
-  let go := {| an_decision := 1; an_stops := false |} in
-  let stop := {| an_decision := 2; an_stops := true |} in
+  let go := {| an_decision := 1; an_stops := false; an_exec_fails := false |} in
+  let stop := {| an_decision := 2; an_stops := true; an_exec_fails := false |} in
   (* an old table on disk; trial 0 is stopped by its first result, its second result of the
      same poll is not delivered; the next poll raises; stop_all raises as well *)
   let '(st, raised, tr) :=
@@ -206,6 +207,12 @@ Example c17_run_example :
   length (cb_results (rs_cb st)) = 2%nat /\ cb_disk (rs_cb st) = Some (cb_results (rs_cb st)) /\
   st_count (ts_overall (rs_ts st)) = 3%nat /\ raised = true /\
   tr = [FPrintBest; FCallbacksEnd; FSaveTuner; FStopAll] /\
+  (* carrying out a STOP raises (backend.stop_trial fails): the result was delivered, its row is stored *)
+  (let '(st2, raised2, _) :=
+     tuner_run true None [go; {| an_decision := 2; an_stops := true; an_exec_fails := true |}; go]
+               [Batch [0%Z; 1%Z] [h 0%Z 3; h 1%Z 5; h 0%Z 2]] (fun _ => false) in
+   map (dget KDecision) (cb_results (rs_cb st2)) = [Some (VTok 1); Some (VTok 2)] /\
+   cb_disk (rs_cb st2) = Some (cb_results (rs_cb st2)) /\ raised2 = true) /\
   (* a second run under the same name that delivers nothing overwrites the table *)
   cb_disk (rs_cb (fst (fst (tuner_run true (Some [r 7; r 8]) [] [Started 0] (fun _ => false))))) = Some [].
 Proof. vm_compute. repeat split. Qed.
